@@ -90,7 +90,7 @@ def _gen_base(rng):
             base["faces"] = gen.hull_faces(gen.box(1.0, 1.0, 1.0))
             base["faces_are_convex"] = True
         return base
-    if mode != "decimal" and rng.chance(0.03):
+    if mode != "decimal" and rng.chance(0.008):
         # more than 1024 triangles in one file (a writer that works in batches)
         n = rng.randint(520, 640)
         v0 = gen.ellipsoid_points_fast(rng, n)
